@@ -116,7 +116,18 @@ impl MultiExecMatcher {
         args: &[&str],
         exec_in_parent_dir: bool,
     ) -> Result<Self, Box<dyn Error>> {
-        let transformed_args = args.iter().map(OsString::from).collect();
+        let transformed_args: Vec<OsString> = args.iter().map(OsString::from).collect();
+
+        // new_command() relies on the fixed arguments fitting into a command line.
+        if argmax::Command::new(executable)
+            .try_args(&transformed_args)
+            .is_err()
+        {
+            return Err(From::from(format!(
+                "the arguments of -exec{} ... {{}} + are too long for a command line",
+                if exec_in_parent_dir { "dir" } else { "" }
+            )));
+        }
 
         Ok(Self {
             executable: executable.to_string(),
